@@ -13,7 +13,7 @@ from vlib import Infra, read_ndjson, write_ndjson, pmap, NCPU
 
 REAL = {"x/v2": "example.com/x/v2", "x/p": "example.com/x/p", "y/p": "example.com/y/p", "x/q": "example.com/x/q", "x/o": "example.com/x/o", "fmt": "fmt"}
 ABS = {v: k for k, v in REAL.items()}
-BASE = {"x/v2": "v2", "x/p": "p", "y/p": "p", "x/q": "q", "x/o": "o", "fmt": "fmt"}
+BASE = {"x/v2": "x", "x/p": "p", "y/p": "p", "x/q": "q", "x/o": "o", "fmt": "fmt"}
 
 CFG_MC = """SPECIFICATION Spec
 CONSTANTS
